@@ -602,13 +602,16 @@ func randomWalk(r *rng.R, maxSteps int) fw.Case {
 	return fw.Case{Input: build(0, tasks, steps), Tags: tags}
 }
 
-// repairedCases: inputs in the four corners that were repaired in /repo (notes/C02.fix-{1,2,3}.patch); they are always
+// repairedCases: inputs in the five corners that were repaired in /repo (notes/C02.fix-{1,2,3,4}.patch); they are always
 // run, so that a return of one of the defects is a concrete failing input. (The single-target and failed-request corners
 // are also covered by exhaustiveFast: n=1 non-critical, and every critical failure.)
 func repairedCases() []fw.Case {
 	nc := genTask{false, "direct", "h1", "ok"}
 	mk := func(id string, calls int, tasks []genTask, steps ...[]string) fw.Case {
 		return fw.Case{Input: build(calls, tasks, steps), Tags: []string{"repaired", "repaired:" + id}}
+	}
+	mkO := func(id string, tasks []genTask, rounds [][]string, steps ...[]string) fw.Case {
+		return fw.Case{Input: buildOffers(0, tasks, rounds, steps), Tags: append(offerTags(tasks, rounds), "repaired", "repaired:"+id)}
 	}
 	return []fw.Case{
 		// nobody left to command: every transition of the cycle succeeds at once, CONFIGURE included
@@ -631,6 +634,13 @@ func repairedCases() []fw.Case {
 			[]string{"START_ACTIVITY", "err", "ok"}),
 		mk("rpc_ok_on_failed_transition", 0, []genTask{{true, "basic", "h2", "ok"}}, []string{"CONFIGURE", "ok"}, []string{"START_ACTIVITY", "ok"},
 			[]string{"STOP_ACTIVITY", "stay"}),
+		// the verdict of an offers round that is over before acquireTasks listens (an abandoned round is over at once) is
+		// kept in the channel (notes/C02.fix-4.patch): the witness of the former finding deploy_verdict_lost — two abandoned
+		// rounds, the third one complete — and a single abandoned round with both tasks critical
+		mkO("deploy_verdict_lost", []genTask{{true, "direct", "h1", "ok"}, {false, "basic", "h2", "ok"}}, [][]string{{"h1"}, {"h1"}},
+			okStep("CONFIGURE", 2), okStep("START_ACTIVITY", 2)),
+		mkO("deploy_verdict_lost", []genTask{{true, "direct", "h1", "ok"}, {true, "fairmq", "h2", "ok"}}, [][]string{{"h2"}},
+			okStep("CONFIGURE", 2), okStep("START_ACTIVITY", 2), okStep("STOP_ACTIVITY", 2)),
 	}
 }
 
@@ -775,10 +785,10 @@ func init() {
 			"(b) random legal walks of up to 6 (thorough: 9) requests over 1..4 tasks on 1..2 hosts, modes direct/basic/fairmq, with idle deaths of non-critical tasks; " +
 			"(c) DEPLOY cases (task dies at launch / stays staging / has no host, empty workflow, call roles only); " +
 			"(d) a handful of cases with a silent / dying / unreachable task (each waits for the core's 90 s or 120 s response timeout); " +
-			"(e) 8 fixed cases in the four repaired corners (commands with no target incl. CONFIGURE and a call-roles-only workflow, a lone non-critical task failing at every position, failed requests); " +
+			"(e) 10 fixed cases in the five repaired corners (commands with no target incl. CONFIGURE and a call-roles-only workflow, a lone non-critical task failing at every position, failed requests, offers rounds that are abandoned at once — whose verdict used to get lost on its way to acquireTasks); " +
 			"(f) executor / agent loss while a command is outstanding (Mesos FAILURE event injected after the victim's reply has left / before it leaves, with / without the terminal status updates, the other targets answering only after the core has handled the loss): " +
 			"a grid of 2 tasks on 2 hosts x every critical mix x the victim's reply in {ok, error staying, error to ERROR} x START/STOP/RESET/CONFIGURE (48 cells; thorough: x executor/agent x with/without update = 192), 9 fixed shapes (neighbours on the lost executor, several tasks lost, a reply that never leaves, a silent victim that keeps the command outstanding by itself), 30 (thorough: 320) random ones over 2..4 tasks. " +
-			"(g) offers that come late (the simulated master leaves the offer of a host out of scripted offers rounds after DEPLOY revived offers; one round per deployment attempt of Manager.acquireTasks; a third agent without tasks is always offered): a grid of 2 tasks on 2 hosts x every critical mix x each host late by 0..3 rounds (3 = the attempt limit) = 64 cells, 12 fixed shapes (machines missing in turn, a later round incomplete again, several tasks on the late host, late and then dying / staying in staging, machines that no agent has, a request failing after a late deployment), 36 (thorough: 400) random ones over 1..4 tasks with ANY pattern of missing offers over 0..4 rounds; the observation of NewEnvironment carries the tasks launched per attempt (REVIVE / ACCEPT calls seen by the master) and, when it failed with acquireTasks still waiting for a verdict, the proof of that (goroutine dump). " +
+			"(g) offers that come late (the simulated master leaves the offer of a host out of scripted offers rounds after DEPLOY revived offers; one round per deployment attempt of Manager.acquireTasks; a third agent without tasks is always offered): a grid of 2 tasks on 2 hosts x every critical mix x each host late by 0..3 rounds (3 = the attempt limit) = 64 cells, 12 fixed shapes (machines missing in turn, a later round incomplete again, several tasks on the late host, late and then dying / staying in staging, machines that no agent has, a request failing after a late deployment), 36 (thorough: 400) random ones over 1..4 tasks with ANY pattern of missing offers over 0..4 rounds; the observation of NewEnvironment carries the tasks launched per attempt (REVIVE / ACCEPT calls seen by the master) and, whenever NewEnvironment failed with every task launched (with or without scripted offers), whether acquireTasks is still parked at the receive of a round's verdict (goroutine dump; the model of the repaired code has no such run, so it would be a disagreement). " +
 			"non-trivial = at least one task and (two answered requests or a scripted failure or a missing offer); distinct by input text",
 		Shrink:  shrink,
 		Workers: Workers,
